@@ -44,6 +44,11 @@ pub(crate) mod engine;
 pub(crate) mod global;
 pub(crate) mod server;
 
+/// Verification hooks (off by default; enabled by the `verif` cargo feature).
+#[cfg(feature = "verif")]
+#[allow(missing_docs)]
+pub mod verif;
+
 pub use api::Brc20ProgApiClient;
 pub use global::Brc20ProgConfig;
 
